@@ -515,7 +515,10 @@ func (fv *FV) doReturn(st *State, results []Term, pos token.Pos) {
 	for i := len(fv.deferred) - 1; i >= 0; i-- {
 		fv.deferred[i](st)
 	}
+	fv.curResults = results
+	fv.ghostAt(st, fmt.Sprintf("return %d", k), pos) // ghost updates that need the values being returned (`result`)
 	fv.ghostAt(st, "exit", pos)
+	fv.curResults = nil
 	if fv.fc == nil {
 		return
 	}
